@@ -51,6 +51,7 @@ def run(ctx):
             r.ok("%s falls back with unwrap_or(&NIL)" % f.path, f)
         else:
             r.violation(f.path, "index-fallback", "%s no longer falls back with unwrap_or: a missing key/index would panic" % f.path, f.loc())
+    alist_lookup(ctx, lexpr)
     from .. import tailmap
     rt = ctx.rule("R-TAIL-MAP", "the element iterator classifies the cdr of a cell: Cons continues, the empty list ends, "
                                 "every other kind (incl. #nil) is a dotted tail")
@@ -75,3 +76,109 @@ def run(ctx):
         r2.floor("mono-surface", len(paths))
         panics.scan(r2, lexpr, lambda f: f.path in paths, table, KINDS, "(monomorphic surface)")
         r2.note("monomorphic instances reached: %d, lexpr functions among them: %d" % (len(seen), len(paths)))
+
+
+def alist_lookup(ctx, lexpr):
+    """Association-list lookup by name and by value over small synthetic lists with concrete key texts."""
+    from .. import alist, sim
+    r = ctx.rule("R-ALIST", "association-list lookup returns the cdr of the first entry whose key matches (by name: any "
+                            "name kind with that text; by value: the same kind and text), skips entries that are not "
+                            "pairs, and answers None otherwise")
+    by_name = lexpr.fn("<str as value::index::Index>::index_into")
+    by_value = lexpr.fn("<value::Value as value::index::Index>::index_into")
+    if by_name is None or by_value is None:
+        r.anchor_missing("Index for str / Index for Value")
+        return
+    NAMEK = ("Symbol", "Keyword", "String")
+
+    def nv(kind, text):
+        return ("name", kind, text)
+
+    def build(spec):
+        """spec: python description -> abstract Value.  ("name", kind, text) | ("atom", kind) | ("pair", k, v) | ("list", items, tail)"""
+        tag = spec[0]
+        if tag == "name":
+            return alist.name_value(lexpr, spec[1], spec[2])
+        if tag == "atom":
+            return alist.mk(lexpr, spec[1])
+        if tag == "pair":
+            return alist.cons(lexpr, build(spec[1]), build(spec[2]))
+        if tag == "list":
+            return alist.lst(lexpr, [build(x) for x in spec[1]], build(spec[2]) if spec[2] else None)
+        raise ValueError(spec)
+
+    def val(i):
+        return nv("String", b"value%d" % i)
+
+    K = b"k"
+    lists = {
+        "one entry": ("list", [("pair", nv("Symbol", K), val(1))], None),
+        "atoms before the entry": ("list", [("atom", "Number"), nv("Symbol", K), ("atom", "Null"),
+                                            ("pair", nv("Symbol", K), val(1))], None),
+        "duplicate keys": ("list", [("pair", nv("Symbol", b"other"), val(0)), ("pair", nv("Symbol", K), val(1)),
+                                    ("pair", nv("Symbol", K), val(2))], None),
+        "same text under each name kind": ("list", [("pair", nv("Keyword", K), val(1)), ("pair", nv("String", K), val(2)),
+                                                    ("pair", nv("Symbol", K), val(3))], None),
+        "no match, dotted tail": ("list", [("pair", nv("Symbol", b"other"), val(0))], ("atom", "Bool")),
+        "not a list": ("atom", "Char"),
+    }
+
+    def expected(spec, mode, key):
+        if spec[0] != "list":
+            return "none"
+        for e in spec[1]:
+            if e[0] != "pair":
+                continue
+            k = e[1]
+            if k[0] != "name":
+                continue
+            if mode == "name" and k[2] == key:
+                return ("some", e[2][2])
+            if mode == "value" and (k[1], k[2]) == key:
+                return ("some", e[2][2])
+        return "none"
+
+    def tag(v):
+        if isinstance(v, sim.Adt) and v.fields:
+            f0 = v.fields[0]
+            if isinstance(f0, sim.Adt) and f0.adt == "std::boxed::Box":
+                try:
+                    inner = f0.fields[0].fields[0]
+                    while isinstance(inner, sim.Ref):
+                        inner = inner.env[inner.local]
+                    return inner.b
+                except Exception:
+                    return repr(v)[:40]
+        return repr(v)[:40]
+
+    n = 0
+    lookups = [("name", K, by_name, alist.Str(K))] + [("value", (kind, K), by_value, None) for kind in NAMEK]
+    for lname, spec in lists.items():
+        for mode, key, fn, karg in lookups:
+            S = alist.make_sim(lexpr)
+            target = build(spec)
+            keyv = karg if mode == "name" else alist.name_value(lexpr, key[0], key[1])
+            try:
+                ps = S.run(fn, args={1: alist._cell(keyv), 2: alist._cell(target)})
+            except sim.Limit:
+                r.violation(fn.path, "inexact:%s" % lname, "path limit")
+                continue
+            got = alist.outcome(S, ps, tag)
+            want = expected(spec, mode, key)
+            n += 1
+            desc = "%s, lookup by %s %s" % (lname, mode, key.decode() if mode == "name" else "%s(%s)" % (key[0], key[1].decode()))
+            if got == {want}:
+                r.ok("%s -> %s" % (desc, want if want == "none" else "entry value %s" % want[1].decode()), fn)
+            elif any(isinstance(g, str) and g.startswith("?") for g in got) or len(got) > 1 and want in got:
+                r.note("undecided: %s gives %s" % (desc, sorted(got, key=repr)))
+                undecided.append(desc)
+            else:
+                r.violation(fn.path, "alist:%s:%s" % (lname.replace(" ", "-"), mode if mode == "name" else key[0]),
+                            "%s: the lookup answers %s, the documented answer is %s" % (
+                                desc, sorted(got, key=repr), want if want == "none" else "the cdr of the first matching entry (%s)" % want[1].decode()),
+                            fn.loc())
+    r.floor("cases", n)
+    r.floor("decided", n - len(undecided))
+
+
+undecided = []
